@@ -330,6 +330,16 @@ func GenReq(t *rapid.T, idx int, o ReqOpts) (*wire.Req, *ReqInfo) {
 		}
 		extra = append(extra, wire.KV{K: name, V: v})
 	}
+	// now and then a header block larger than one read buffer / buffer node (4 KiB): a value of
+	// distinct bytes, so that a misplaced copy shows
+	if rapid.IntRange(0, 11).Draw(t, "bigHeader") == 0 {
+		n := rapid.SampledFrom([]int{3000, 4000, 4096, 4600, 5000, 9000}).Draw(t, "bigHeaderLen")
+		b := make([]byte, n)
+		for i := range b {
+			b[i] = "abcdefghijklmnopqrstuvwxyz0123456789"[(i*7+i/36+idx)%36]
+		}
+		extra = append(extra, wire.KV{K: "X-Big", V: string(b)})
+	}
 	// interleave framing lines at random positions among the extra lines
 	pos := make([]int, len(framingLines))
 	for i := range framingLines {
